@@ -92,8 +92,17 @@ def enc_colour(v):
     return "s:" + v.encode().hex() if isinstance(v, str) else "x:" + repr(v)
 
 
+def regen_api():
+    """CmGen/Api.lean: Color / ColorPair / make_readable / make_readable_bulk as they read now (the `source_*` theorems of
+    CmProps/C12api.lean identify them with the model)"""
+    from translate import api
+    api.generate()
+
+
 def check(run):
-    run.proof = proof_status("C12")
+    run.proof = proof_status("C12", regenerate=regen_api)
+    from translate import api as _api
+    run.extra["source_translation_api"] = _api.summary()
     q = run.quick()
     repo_import()
     nl = 260 if q else 6000
